@@ -123,3 +123,15 @@ def register(claim, na):
         "shadow symbolic counts/coefficients through the real numpy code + z3 obligations per path",
         "DESIGN.md §1 E2, §2 C10",
     )
+    claim(
+        "C17", "model_checking",
+        "Symbolic path exploration of the distribution code with every weight a z3 real: constructor (accept => non-negative, normalised, "
+        "proportional to the input; reject => a negative weight or vanishing norm; input dict untouched), subdistribution on registers of 1..4 "
+        "qubits for every ordered list of distinct qubits (marginal values in listed order, source intact, same result twice), squared MMD with a "
+        "symbolic kernel rate q=e^{-1/(2 sigma)} in (0,1) (symmetric, zero on equal arguments, non-negative, equal to d^T K(q) d), clipped NLL with "
+        "symbolic epsilon (>= entropy - (sum of clipped - 1), ln uninterpreted + instantiated axioms) and JSD symmetry; z3 decides every obligation per path.",
+        "Exact-real floats; math.log abstracted to an uninterpreted function with the two axioms listed in evidence (models under that abstraction that do "
+        "not reproduce are reported inconclusive); bad-input rejection and save/load are ground instances.",
+        "shadow symbolic weights through the real code + DFS path explorer (z3 feasibility) + per-path z3 obligations; UF abstraction of ln",
+        "DESIGN.md §1 E2, §2 C17",
+    )
